@@ -52,7 +52,25 @@ func (g *JSONDoc) smallWS(b []byte) []byte {
 // Number appends a JSON number.
 func (g *JSONDoc) Number(b []byte) []byte {
 	t := g.T
-	switch t.Pick(4, 3, 2, 2, 1) {
+	switch t.Pick(4, 3, 2, 2, 1, 1) {
+	case 5: // integer literal at or beyond the 64-bit limits (still exact enough for float64)
+		if t.Chance(1, 3) {
+			b = append(b, '-')
+		}
+		switch t.Intn(4) {
+		case 0:
+			return append(b, "9223372036854775807"...)
+		case 1:
+			return append(b, "9223372036854775808"...)
+		case 2:
+			return append(b, "18446744073709551616"...)
+		}
+		n := t.Range(19, 24)
+		b = append(b, byte('1'+t.Intn(9)))
+		for i := 1; i < n; i++ {
+			b = append(b, byte('0'+t.Intn(10)))
+		}
+		return b
 	case 0: // small int
 		return strconv.AppendInt(b, int64(t.Intn(2000))-1000, 10)
 	case 1: // n-digit int (<= 15 digits: exact in float64 both ways)
